@@ -99,12 +99,22 @@ def plan(tier, seed):
     for i in range(n_parent):
         specs.append({'lane': 'parent', 'seed': seed * 10000 + 3000 + i, 'histories': hist,
                       'timeout': 120})
+    from vmon import simcheck
+    specs += simcheck.sim_specs(['c01'], seed, 2 if tier == 'quick' else 8,
+                                60 if tier == 'quick' else 200, base=30000)
     return specs
 
 
 def run_spec(spec, rec):
     import logging
     logging.disable(logging.CRITICAL)
+    if spec['lane'] == 'sim':
+        # lane SIM (vmon.sim): parent-side order of ACK / READY consumption on
+        # the real Pool in event-loop mode - accept callback fired exactly when
+        # the ACK is processed and before the result callback, owner recorded
+        from vmon import simcheck
+        return simcheck.run_sim_spec(
+            spec, rec, PROPERTY, lambda sim: bool(sim.stats.get('ack_processed')))
     if spec['lane'] == 'iso':
         run_iso_spec(spec, rec)
     elif spec['lane'] == 'pool':
